@@ -21,12 +21,14 @@ class DefaultArgsParser(ArgsParser):
     def __init__(self):  # type: () -> None
         self._arguments = OrderedDict()
         self._options = OrderedDict()
+        self._leading_values = None
 
     def parse(
         self, args, fmt, lenient=False
     ):  # type: (RawArgs, ArgsFormat, bool) -> Args
         self._arguments = OrderedDict()
         self._options = OrderedDict()
+        self._leading_values = None
 
         arguments = OrderedDict()
         command_names = OrderedDict()
@@ -96,6 +98,8 @@ class DefaultArgsParser(ArgsParser):
                 self._parse_argument(token, fmt, lenient)
             elif parse_options and token == "--":
                 parse_options = False
+                # Values after "--" are never command names
+                self._leading_values = len(self._flatten(self._arguments.values()))
             elif parse_options and token.find("--") == 0:
                 self._parse_long_option(token, tokens, fmt, lenient)
             elif parse_options and token[0] == "-" and token != "-":
@@ -114,8 +118,12 @@ class DefaultArgsParser(ArgsParser):
         actual_values_iterator = iter(actual_values)
         arguments_iterator = iter(arguments.values())
 
+        limit = self._leading_values
+        if limit is None:
+            limit = len(actual_values)
+
         actual_value, command_name = self._skip_command_names(
-            actual_values_iterator, command_names_iterator, arguments_iterator
+            actual_values_iterator, command_names_iterator, arguments_iterator, limit
         )
 
         _, argument = self._copy_argument_values(
@@ -138,14 +146,15 @@ class DefaultArgsParser(ArgsParser):
         for name, value in fixed_values.items():
             self._arguments[name] = value
 
-    def _skip_command_names(self, actual_values, command_names, arguments):
+    def _skip_command_names(self, actual_values, command_names, arguments, limit):
         arg = next(actual_values, None)
         command_name = next(command_names, None)
 
-        while arg and command_name and command_name.match(arg):
+        while limit > 0 and arg and command_name and command_name.match(arg):
             arg = next(actual_values, None)
             command_name = next(command_names, None)
             next(arguments, None)
+            limit -= 1
 
         return arg, command_name
 
